@@ -58,6 +58,7 @@ def run(ctx):
     rows = vlib.read_tsv(os.path.join(ctx.run_dir, "c17.cases.tsv")) if ok else []
     progs = [r for r in rows if len(r) >= 11 and r[1] == "PROG"]
     negs = [r for r in rows if len(r) >= 6 and r[1] == "NEG"]
+    extras = [r for r in rows if len(r) >= 6 and r[1] == "EXTRA"]
     have_model = os.path.exists(vlib.MODEL)
 
     # ---------------------------------------------------------------- model predictions
@@ -198,15 +199,31 @@ def run(ctx):
             ctx.report({"oracle": "diagnostic", "kind": nid}, f"{nid} is rejected without the expected diagnostic ({want!r}): {outcome[:160]}", payload)
         else:
             n_neg_ok += 1
+    n_extra_ok = 0
+    for r in extras:
+        xid, outcome, detail, src = r[2], r[3], r[4], vlib.unesc(r[5])
+        outcomes[("extra", outcome.split(":")[0])] += 1
+        payload = {"id": r[0], "program": xid, "outcome": outcome[:300], "observed": detail[:600], "src": src}
+        if not outcome.startswith("ok"):
+            ctx.report({"oracle": "reject", "stream": "extra", "receiver": xid}, f"{xid}: a well-formed program is not compiled: {outcome[:160]}", payload)
+            continue
+        bad = [x for x in sexp_parse(detail) if x[2] == "BAD"]
+        if bad:
+            ctx.report({"oracle": "call-forms", "kind": "equally-named-methods-confused", "stream": xid},
+                       f"{xid}: {bad[0][0]} should call a declared function containing {bad[0][1]!r}, calls {bad[0][3]}", payload)
+        else:
+            n_extra_ok += 1
     ctx.violations.sort(key=lambda v: len(v[2].get("src", "")))
 
     cov = {
-        "evaluations": len(progs) + len(negs),
-        "distinct_nontrivial": len(distinct) + n_neg_ok,
+        "evaluations": len(progs) + len(negs) + len(extras),
+        "distinct_nontrivial": len(distinct) + n_neg_ok + n_extra_ok,
+        "equally_named_method_programs_ok": f"{n_extra_ok}/{len(extras)}",
         "rule": "one case = one generated program; positive programs (receiver type × trait name × method name) contain the static, "
                 "bounded-generic and dyn form of one trait method plus a distractor impl, and both inherent forms for local nominal "
                 "receivers; non-trivial = accepted by the real pipeline (positive) or rejected with the expected diagnostic (negative)",
-        "programs": {f"{k[0]}:{k[1]}": v for k, v in sorted(outcomes.items())},
+        "programs": len(progs) + len(negs) + len(extras),
+        "program_outcomes": {f"{k[0]}:{k[1]}": v for k, v in sorted(outcomes.items())},
         "positive_programs_all_forms_agree": n_agree, "positive_programs_compiled": n_ok,
         "negative_programs_rejected_as_required": n_neg_ok, "negative_programs": len(negs),
         "site_name_comparisons": {"checked": n_tie, "equal_to_model": n_tie_ok},
